@@ -279,7 +279,10 @@ func (c *comparer) typ(at string, g gt.Type, x xt.Type) {
 			if gf.Name() != xf.Name() || gf.Embedded() != xf.Embedded() || gf.Exported() != xf.Exported() || !xf.IsField() {
 				c.errf("%s: field %s embedded=%v converted to %s embedded=%v isField=%v", fat, gf.Name(), gf.Embedded(), xf.Name(), xf.Embedded(), xf.IsField())
 			}
-			if !samePkg(gf.Pkg(), xf.Pkg()) {
+			if !samePkg(gf.Pkg(), xf.Pkg()) && !(gf.Exported() && c.masked("F-C30-2")) {
+				// (F-C30-2: identical struct types of two packages, e.g. go/token.Position and
+				// text/scanner.Position, share one converted struct, so the package recorded
+				// for their exported fields is the one converted first)
 				c.errf("%s: field package %s converted to %s", fat, pkgPath(gf.Pkg()), xpkgPath(xf.Pkg()))
 			}
 			if g.Tag(i) != xs.Tag(i) {
